@@ -127,6 +127,22 @@ def rule_fill_or_kill(ctx: Ctx) -> None:
     t = c04.evaluate_obligations(ctx)
     ctx.exhaustive = True
     c04.report(ctx, t, rules_for={"C05.2", "C05.3"})
+    # every bar of the pair reaches every open order: the chain Exchange._on_bar_event -> OrderManager.on_bar_event -> _process_order is unconditional
+    xb = ctx.func(f"{EX}._on_bar_event")
+    gx = ctx.cfg(xb)
+    om_calls = [c for c in A.func_calls(xb) if (A.call_name(c) or "") == "self._order_mgr.on_bar_event"]
+    ctx.floor("C05.2", "order_mgr.on_bar_event in Exchange._on_bar_event", len(om_calls), 1)
+    omn = [n for c in om_calls for n in gx.nodes_for(c)]
+    pth = gx.path_avoiding(gx.entry, lambda n: n is gx.exit, lambda n: n in omn, C.NO_EXC)
+    ctx.check(pth is None, "C05.2", "every bar is matched against the open orders (no bar is skipped)", xb, om_calls[0],
+              "order_mgr.on_bar_event is on every path of the bar handler", "some bars are not matched against open orders: a market/stop order "
+              "accepted before such a bar is not closed by the first bar of its pair", detail={"path": C.fmt_path(pth) if pth else []})
+    obf = ctx.func(f"{OM}.on_bar_event")
+    lps = [n for n in C.walk_shallow(obf.node) if isinstance(n, ast.For)]
+    okb = bool(lps) and len(lps[0].body) == 1 and isinstance(lps[0].body[0], ast.Expr) and isinstance(lps[0].body[0].value, ast.Call) \
+        and (A.call_name(lps[0].body[0].value) or "") == "self._process_order" and not any(isinstance(a, ast.If) for a in A.ancestors(lps[0]))
+    ctx.check(okb, "C05.2", "every open order of the pair is processed for the bar, unconditionally", obf, lps[0] if lps else obf.node,
+              "loop body is exactly _process_order(order, ...)", "some open orders of the pair are skipped for a bar")
     # the not-filled callback fires whenever a bar produced no (complete) fill record
     po = ctx.func(f"{OM}._process_order")
     g = ctx.cfg(po)
